@@ -188,8 +188,8 @@ pub fn run(ctx: &Ctx) {
             eight.push(SignCase { hash: h, levels: vec![(4, 2), (8, 2)], seed: gen::SeedSpec::Random(k as u64), counter: k as u64, counter_class: "msg-64k".into(), msg: gen::MsgSpec { len: *len, tag: k as u64 } });
         }
     }
-    // every message length 0..=200, rotating hash / W / entry point
-    for len in 0..=200usize {
+    // every message length 0..=300, rotating hash / W / entry point
+    for len in 0..=300usize {
       for h in ALL_HASHES {
         let w = [4u32, 8, 1, 2][(len / 6 + h.index()) % 4];
         eight.push(SignCase { hash: h, levels: vec![(w, 2)], seed: gen::SeedSpec::Random(len as u64), counter: (len % 4) as u64, counter_class: "msg-len".into(), msg: gen::MsgSpec { len, tag: 1000 + len as u64 } });
